@@ -467,36 +467,60 @@ func c17BuildNode(w *World, op TxOp, v TxView, _ signature.Signer, fee *transact
 	}
 	n.Expiration = epoch + 1 + beacon.EpochTime(rr.Intn(3))
 
-	// Key operation.
+	// Shape operation on an update: the roles (and with them the runtimes and the stake claim of
+	// the node) change. Dropping a role or a runtime of an active node is refused by
+	// VerifyNodeUpdate — after the entity's stake has been checked against the new claim.
 	keyOp := ""
+	if cur != nil && w.K.Runtime && rr.Chance(1, 5) {
+		rt := []*node.Runtime{{ID: w.RuntimeID, Version: version.Version{Major: 0, Minor: 1, Patch: 0}}}
+		switch {
+		case n.Roles&node.RoleComputeWorker == 0 && rr.Bool():
+			n.Roles, n.Runtimes = node.RoleComputeWorker, rt
+			keyOp = "roles-validator-to-compute "
+		case n.Roles&node.RoleComputeWorker == 0:
+			n.Roles, n.Runtimes = n.Roles|node.RoleComputeWorker, rt
+			keyOp = "roles-add-compute "
+		case n.Roles&node.RoleValidator == 0 && rr.Bool():
+			n.Roles, n.Runtimes = node.RoleValidator, nil
+			keyOp = "roles-compute-to-validator "
+		case n.Roles&node.RoleValidator == 0:
+			n.Roles |= node.RoleValidator
+			keyOp = "roles-add-validator "
+		default:
+			n.Roles, n.Runtimes = node.RoleValidator, nil
+			keyOp = "roles-drop-compute "
+		}
+	}
+
+	// Key operation.
 	rot := []int{c17SlotP2P, c17SlotTLS, c17SlotVRF}
 	switch rr.Pick([]int{6, 5, 1, 3, 2, 1, 3, 2, 1}) {
 	case 1: // rotate one of the P2P/TLS/VRF keys to another generation
 		slot := rot[rr.Intn(3)]
 		c17SetKey(n, slot, ss.subKey(ref, slot, rr.Intn(c17KeyGens)).Public())
-		keyOp = "rotate-" + c17SlotNames[slot]
+		keyOp += "rotate-" + c17SlotNames[slot]
 	case 2: // rotate the consensus key (only possible for a node that is not in the registry)
 		c17SetKey(n, c17SlotConsensus, ss.subKey(ref, c17SlotConsensus, rr.Intn(c17KeyGens)).Public())
-		keyOp = "rotate-consensus"
+		keyOp += "rotate-consensus"
 	case 3: // exchange two keys among the node's own slots
 		p := rr.Perm(3)
 		a, b := rot[p[0]], rot[p[1]]
 		ka, kb := c17GetKey(n, a), c17GetKey(n, b)
 		c17SetKey(n, a, kb)
 		c17SetKey(n, b, ka)
-		keyOp = "exchange-" + c17SlotNames[a] + "-" + c17SlotNames[b]
+		keyOp += "exchange-" + c17SlotNames[a] + "-" + c17SlotNames[b]
 	case 4: // move a key to another slot and put a new key into the vacated slot
 		p := rr.Perm(3)
 		a, b := rot[p[0]], rot[p[1]]
 		c17SetKey(n, a, c17GetKey(n, b))
 		c17SetKey(n, b, ss.subKey(ref, b, rr.Intn(c17KeyGens)).Public())
-		keyOp = "move-" + c17SlotNames[b] + "-to-" + c17SlotNames[a]
+		keyOp += "move-" + c17SlotNames[b] + "-to-" + c17SlotNames[a]
 	case 5: // cycle the three keys
 		kp, kt, kv := n.P2P.ID, n.TLS.PubKey, n.VRF.ID
 		c17SetKey(n, c17SlotTLS, kp)
 		c17SetKey(n, c17SlotVRF, kt)
 		c17SetKey(n, c17SlotP2P, kv)
-		keyOp = "cycle"
+		keyOp += "cycle"
 	case 6: // take a key of another registered node
 		all, err := st.Nodes(ctx)
 		if err == nil {
@@ -514,7 +538,7 @@ func c17BuildNode(w *World, op TxOp, v TxView, _ signature.Signer, fee *transact
 					to = c17SlotConsensus
 				}
 				c17SetKey(n, to, c17GetKey(o, from))
-				keyOp = "steal-" + c17SlotNames[from] + "-as-" + c17SlotNames[to]
+				keyOp += "steal-" + c17SlotNames[from] + "-as-" + c17SlotNames[to]
 			}
 		}
 	case 7: // adopt a key of a node that is currently not registered (expired and removed, or never registered)
@@ -532,12 +556,12 @@ func c17BuildNode(w *World, op TxOp, v TxView, _ signature.Signer, fee *transact
 			from := rot[rr.Intn(3)]
 			to := rot[rr.Intn(3)]
 			c17SetKey(n, to, ss.subKey(o, from, rr.Intn(2)).Public())
-			keyOp = "adopt-" + c17SlotNames[from] + "-as-" + c17SlotNames[to]
+			keyOp += "adopt-" + c17SlotNames[from] + "-as-" + c17SlotNames[to]
 		}
 	case 8: // the same key in two slots
 		p := rr.Perm(3)
 		c17SetKey(n, rot[p[0]], c17GetKey(n, rot[p[1]]))
-		keyOp = "dup"
+		keyOp += "dup"
 	}
 
 	// Signatures.
